@@ -1,9 +1,9 @@
 SPECIFICATION Spec
 CONSTANTS N = 2
-  Walkers = {"outline"}
-  MaxDepth = 1
+  Walkers = {"length"}
+  MaxDepth = 4
   MaxChain = 3
-  StackCap = 1
+  StackCap = 12
   G_SEEN = TRUE
   G_DEPTH = TRUE
   G_SCALAR = TRUE
@@ -11,8 +11,8 @@ CONSTANTS N = 2
   G_CHAIN = TRUE
   G_GLOBDEPTH = TRUE
   G_WALKDEPTH = FALSE
-  G_FILTERTOP = TRUE
-  FSTREAM = FALSE
+  G_FILTERTOP = FALSE
+  FSTREAM = TRUE
 INVARIANTS NoOverflow WorkBounded ChainBounded
 PROPERTY Termination
 CHECK_DEADLOCK FALSE
